@@ -212,7 +212,9 @@ static int uriCompose(const char *scheme, const char *user, const char *pass, co
 	}
 
 	if (host != NULL) {
-		count += KSI_snprintf(buf + count, len - count, "%s", host);
+		/* An IPv6 literal (the only host form containing ':') must be enclosed in brackets within an URL. */
+		int v6 = (strchr(host, ':') != NULL);
+		count += KSI_snprintf(buf + count, len - count, "%s%s%s", v6 ? "[" : "", host, v6 ? "]" : "");
 	}
 
 	if (port != 0) {
